@@ -14,10 +14,10 @@ open CogentModel.AtomicWrite CogentModel.Composable
 
 /-- example values used by the non-vacuity examples: directory `[0]`, destination `[0,1]` holding `[9]` -/
 def exCfg : Cfg :=
-  { commit := .replace, guarded := true, withBlock := true, dir := [0], name := 1, t := 2, u := 3,
+  { commit := .replace, guarded := true, withBlock := true, bodyUnlink := false, closeInBody := false, dir := [0], name := 1, t := 2, u := 3,
     chunks := [[5], [6, 7]], zipMember := none }
 def exCfgCoded : Cfg :=
-  { commit := .unlinkRename, guarded := false, withBlock := true, dir := [0], name := 1, t := 2, u := 3,
+  { commit := .unlinkRename, guarded := false, withBlock := true, bodyUnlink := false, closeInBody := false, dir := [0], name := 1, t := 2, u := 3,
     chunks := [[5]], zipMember := none }
 def exFS : FS := upd (upd (fun _ => none) [0] (some .dir)) [0, 1] (some (.file [9]))
 def exFSzip : FS := upd (upd (fun _ => none) [0] (some .dir)) [0, 1] (some (.archive [(4, [1])] false))
@@ -105,19 +105,20 @@ theorem atomic_all_prefixes_counter_witness :
 whichever call before the final `rmtree` raises, the destination keeps its previous content (or
 absence) and no path under the temp dir remains. -/
 theorem fault_leaves_old_and_no_temp (c : Cfg) (fs : FS) (h : WF c fs) (hz : c.zipMember = none)
-    (hc : c.commit = .replace) (hg : c.guarded = true) (hw : c.withBlock = true)
+    (hc : c.commit = .replace) (hg : c.guarded = true) (hw : c.withBlock = true) (hb : c.bodyUnlink = false)
     (k : Nat) (hk : k + 1 < (program c).length) :
     faultState c fs k c.dest = fs c.dest ∧ ∀ p, under c.tmpdir p = true → faultState c fs k p = none := by
   have : (program c).length = (pre c).length + 2 := by simp [program, post, commitInstrs, hz, hc]
-  exact fault_guarded_replace c fs h hz hc hg hw k (by omega)
+  exact fault_guarded_replace c fs h hz hc hg hw hb k (by omega)
 
 example : faultState exCfg
     exFS 5 [0, 2] = none := by decide
 
 /-- **Handlers as coded** (no cleanup outside the with-block): a failure *inside the writer's
-with-block* (any data write) is handled correctly. -/
+with-block* (any data write) is handled correctly — unless the writer's own except-clause
+unlinks the destination (`save_to_filename`). -/
 theorem fault_leaves_old_and_no_temp_partial (c : Cfg) (fs : FS) (h : WF c fs) (hw : c.withBlock = true)
-    (j : Nat) (hj : j < c.chunks.length) :
+    (hb : c.bodyUnlink = false) (j : Nat) (hj : j < c.chunks.length) :
     faultState c fs (j + 2) c.dest = fs c.dest ∧
     ∀ p, under c.tmpdir p = true → faultState c fs (j + 2) p = none := by
   have hk : j + 2 ≤ (pre c).length := by rw [pre_length]; omega
@@ -125,7 +126,7 @@ theorem fault_leaves_old_and_no_temp_partial (c : Cfg) (fs : FS) (h : WF c fs) (
   have hD := crash_before_commit c fs h.hne (j + 2) hk
   unfold faultState
   rw [phaseAt_body c j hj]
-  rw [cleanup_result c _ hS _ (Or.inr (by simp [handler, hw]))]
+  rw [cleanup_result c _ hS _ (Or.inr (by simp [handler, hw, hb]))]
   exact ⟨by simp [not_under_tmpdir_dest c h.hne, hD], fun p hp => by simp [hp]⟩
 
 /- FULL STATEMENT (not proved): `fault_leaves_old_and_no_temp` for `c.guarded = false` (the pinned
@@ -133,14 +134,16 @@ theorem fault_leaves_old_and_no_temp_partial (c : Cfg) (fs : FS) (h : WF c fs) (
 
 /-- As coded: `open` raising in `__enter__` leaks the temp dir (k = 1); the rename raising after the
 unlink loses the destination and leaks the temp file (k = 4); a bare `atomic_write` object
-(`Table.write`) leaks the temp dir when a data write fails (k = 2). -/
+(`Table.write`) leaks the temp dir when a data write fails (k = 2); `save_to_filename`'s own
+except-clause removes the *destination* when a data write fails (k = 2). -/
 theorem fault_counter_witness :
     let c : Cfg := exCfgCoded
     let fs : FS := exFS
     faultState c fs 1 c.tmpdir = some .dir ∧
     (faultState c fs 5 c.dest = none ∧ faultState c fs 5 c.tmpfile = some (.file [5])) ∧
     (faultState c fs 4 c.dest = some (.file [5]) ∧ faultState c fs 4 c.tmpdir = some .dir) ∧
-    faultState { c with withBlock := false } fs 2 c.tmpdir = some .dir := by
+    faultState { c with withBlock := false } fs 2 c.tmpdir = some .dir ∧
+    faultState { c with bodyUnlink := true, closeInBody := true } fs 2 c.dest = none := by
   decide
 
 /-- **zip-member target** (`in_zip`, append in place): outside the window between appending the
